@@ -125,7 +125,7 @@ CLAIMED['C09'] = {
              'draw shared by all rows of the block; per-individual values and the total are invariant under any reordering of the table and follow an injective '
              'renaming of individuals. Tied by streams panel_map (refusal, map, row permutation, sample size compared exactly inside Coq, including remove '
              'histories) and panel_ll (simulate, calculate_likelihood, get_value_c per-individual values vs the model over Q at relative 1e-12 with a '
-             'deterministic tagged draw generator, permuted individuals and rows, 1-4 threads). Also for histories of one Database object (state machine Model/Panel.v, T09g-T09i, axiom-free): a declaration on any column (including a second one on another column) is accepted exactly on contiguous columns and a refusal leaves the state unchanged; after any sequence of declarations, direct edits of database.data, removals and earlier evaluations, an evaluation uses the map of the current table on the current column with one series of draws per individual of that table. Stream panel_ll replays such histories step by step against the Coq state machine, with every one-expression entry point and BIOGEME simulate / likelihood as first evaluation after an edit or a declaration; the scaled value, gradient, Hessian and BHHH are checked to equal unscaled / number of individuals. A BIOGEME object built before its database table changed (Database.remove, direct edits): proved for the model (T09j) and checked on generated histories that every likelihood, derivative and simulation is the value on ONE consistent table, the table copied at construction or the current one, never rows of one with the ranges of the other; simulate follows the current table. Not claimed: that the object follows the current table for likelihoods before the next simulate. Open known finding: the scaled likelihood divides the construction-table likelihood by the current number of individuals.'),
+             'deterministic tagged draw generator, permuted individuals and rows, 1-4 threads). Also for histories of one Database object (state machine Model/Panel.v, T09g-T09i, axiom-free): a declaration on any column (including a second one on another column) is accepted exactly on contiguous columns and a refusal leaves the state unchanged; after any sequence of declarations, direct edits of database.data, removals and earlier evaluations, an evaluation uses the map of the current table on the current column with one series of draws per individual of that table. Stream panel_ll replays such histories step by step against the Coq state machine, with every one-expression entry point and BIOGEME simulate / likelihood as first evaluation after an edit or a declaration; the scaled value, gradient, Hessian and BHHH are checked to equal unscaled / number of individuals. A BIOGEME object built before its database table changed (Database.remove, direct edits): proved for the model (T09j) and checked on generated histories that every likelihood, derivative and simulation is the value on ONE consistent table, the table copied at construction or the current one, never rows of one with the ranges of the other; simulate follows the current table. Not claimed: that the object follows the current table for likelihoods before the next simulate. Open known findings: the scaled likelihood divides the construction-table likelihood by the current number of individuals; after whole individuals left the table, simulate followed by a likelihood with 4 threads crashes the engine (thread layout of the old number of individuals).'),
     'note': KERNEL + 'pandas primitives as modelled (sort_values = some sorted permutation, unique = first appearance); the C++ engine loop and draw indexing are '
             'sampled, not verified; the rule "variables inside PanelLikelihoodTrajectory" is C12\'s.',
 }
